@@ -126,6 +126,9 @@ void UncompressedFile::write(const char * s, std::streamsize n) {
                 logContainer->filePosition =
                     m_data.back()->uncompressedFileSize +
                     m_data.back()->filePosition;
+            } else {
+                /* all earlier containers were consumed and dropped: continue at the put position */
+                logContainer->filePosition = m_tellp;
             }
             m_data.push_back(logContainer);
         }
